@@ -126,11 +126,12 @@ Qed.
 Definition good (e : expr) : Prop :=
   chain 1 (eval_tt e) 1 /\ shape (eval_tt e) = eshape e /\ 2 <= length (eval_tt e).
 
-Lemma wf_of Y idx : chain 1 Y 1 -> inb (shape Y) idx -> wf 1 Y idx.
+Lemma wf_of (Y : list (core T)) idx : chain 1 Y 1 -> inb (shape Y) idx -> wf 1 Y idx.
 Proof. intros. apply wf_wfo, wfo_chain_inb. auto. Qed.
 
 Lemma eval_good e : wse e -> good e.
 Proof.
+  unfold good.
   induction e as [Y|e IH|e1 IH1 e2 IH2|e1 IH1 e2 IH2|e1 IH1 e2 IH2|e IH c|e IH c|c e IH|e IH c|e1 IH1 e2 IH2];
     cbn [wse eval_tt eshape]; intros W.
   - destruct W. repeat split; auto.
